@@ -41,6 +41,28 @@ Eval(e) ==
                    /\ Report(~e.parts.ok \/ (e.parts.name = NameX /\ ParamNames(e.parts.params) = ParamNames(c.ps)
                                              /\ Len(e.parts.params) = Len(c.ps)),
                              known, "P:C05:no-injection")
+      [] e.k = "sparts" ->
+           \* a call of Contentline.parts observed in a real execution (the repository's own test-suite):
+           \* the mirror must explain it exactly; where the line is an RFC content line, the split must be the RFC one
+           LET m == ImplParts(e.line, FALSE)
+               known == e.parts = m
+               r == RefSplit(e.line)
+               plain == ~Contains(e.line, BS) /\ ~Contains(e.line, PCT)
+           IN /\ IF known THEN TRUE ELSE PrintT(<<"FAIL", l, "M:C01:parts-mirror">>)
+              /\ IF ~r.ok THEN TRUE
+                 ELSE /\ Report(e.parts.ok /\ e.parts.name = r.name /\ SameParams(e.parts.params, r.params),
+                                known, "P:C01:split-matches-rfc")
+                      /\ Report(~plain \/ ~e.parts.ok \/ e.parts.value = r.value, known, "P:C01:split-value")
+      [] e.k = "sjoin" ->
+           \* a call of Contentline.from_parts observed in a real execution: the RFC reading of the produced
+           \* line gives back the name, the parameters and the value text
+           LET m == ImplFromParts(e.name, e.ps, e.v, e.sorted)
+               known == e.line = m
+               r == RefSplit(e.line)
+           IN /\ IF known THEN TRUE ELSE PrintT(<<"FAIL", l, "M:C05:join-mirror">>)
+              /\ IF ~ValidToken(e.name) \/ ~InDomain08(e.ps) \/ Contains(e.v, LF) THEN TRUE
+                 ELSE /\ Report(r.ok /\ r.name = e.name /\ r.value = e.v, known, "P:C05:join-split")
+                      /\ Report(r.ok /\ SameParams(r.params, e.ps), known, "P:C08:join-split-params")
       [] OTHER -> PrintT(<<"FAIL", l, "M:unknown-event">>)
 Next == \/ l <= Len(Events) /\ Eval(Events[l]) /\ l' = l + 1
         \/ l = Len(Events) + 1 /\ PrintT(<<"DONE", Len(Events)>>) /\ l' = l + 1
